@@ -244,6 +244,16 @@ def verb_rules():
         ("arg:group_by_add", TE, lambda tb, t, u, o: tb >> pdt.group_by(t.g, add="yes")),
         ("arg:export_target", TE, lambda tb, t, u, o: tb >> pdt.export("polars")),
         ("arg:pipe_nonverb", TE, lambda tb, t, u, o: tb >> 5),
+        ("arg:cast_python_type", TE | DT, lambda tb, t, u, o: tb >> pdt.mutate(z=t.k.cast(int))),
+        ("arg:cast_python_str_type", TE | DT, lambda tb, t, u, o: tb >> pdt.mutate(z=t.k.cast(str))),
+        ("arg:cast_string", TE | DT, lambda tb, t, u, o: tb >> pdt.mutate(z=t.k.cast("Int64"))),
+        ("arg:cast_polars_type", TE | DT, lambda tb, t, u, o: tb >> pdt.mutate(z=t.k.cast(__import__("polars").Int64))),
+        ("arg:cast_const", TE | DT, lambda tb, t, u, o: tb >> pdt.mutate(z=t.k.cast(pdt.Const(pdt.Int64())) if hasattr(pdt, "Const") else t.k.cast(None))),
+        ("expr:python_and", TE, lambda tb, t, u, o: tb >> pdt.filter((t.x > 1) and t.b)),
+        ("expr:python_if", TE, lambda tb, t, u, o: tb >> pdt.mutate(z=1 if t.b else 2)),
+        ("case:when_nonbool_chained", DT, lambda tb, t, u, o: tb >> pdt.mutate(z=pdt.when(t.b).then(1).when(t.x).then(2))),
+        ("case:otherwise_twice", TE | {"AttributeError"}, lambda tb, t, u, o: tb >> pdt.mutate(z=pdt.when(t.b).then(1).otherwise(2).otherwise(3))),
+        ("case:when_after_otherwise", TE, lambda tb, t, u, o: tb >> pdt.mutate(z=pdt.when(t.b).then(1).otherwise(2).when(t.b).then(3))),
     ]
 
 
